@@ -69,4 +69,4 @@ where
 
 #[cfg(kani)]
 #[path = "/verif/harness/may/sync_poison.rs"]
-mod verif_kani;
+pub(crate) mod verif_kani;
